@@ -2,7 +2,8 @@
 # run every property's quick (or $1) check sequentially; prints one line per property
 tier=${1:-quick}
 cd /verif
-for p in C01 C02 C03 C04 C05 C06 C07 C08 C09 C10 C11 C12 C13 C14 C15 C16 C17 C18 C19 C20; do
+props=${2:-"C01 C02 C03 C04 C05 C06 C07 C08 C09 C10 C11 C12 C13 C14 C15 C16 C17 C18 C19 C20"}
+for p in $props; do
   s=$(date +%s)
   ./check $p --tier $tier > /tmp/all_$p.log 2>&1
   rc=$?
